@@ -14,6 +14,7 @@ package compare
 
 import (
 	"fmt"
+	"strconv"
 	"strings"
 )
 
@@ -69,7 +70,7 @@ func Compare(a, b any) int {
 		}
 	default:
 		{
-			return strings.Compare(fmt.Sprintf("%v", a), fmt.Sprintf("%v", b))
+			return strings.Compare(text(a), text(b))
 		}
 	}
 }
@@ -85,6 +86,18 @@ func Cmp[T int | int32 | int64 | int16 | int8 | uint | uint32 | uint64 | uint16 
 		return 1
 	}
 	return -1
+}
+
+// The decimal text of a value: a float is written without an exponent
+// (1000000, not 1e+06), everything else as it prints
+func text(v any) string {
+	switch t := v.(type) {
+	case float32:
+		return strconv.FormatFloat(float64(t), 'f', -1, 32)
+	case float64:
+		return strconv.FormatFloat(t, 'f', -1, 64)
+	}
+	return fmt.Sprintf("%v", v)
 }
 
 func As[T int | int32 | int64 | int16 | int8 | uint | uint32 | uint64 | uint16 | byte | float32 | float64](v any) T {
@@ -149,8 +162,8 @@ func compare[T int | int32 | int64 | int16 | int8 | uint | uint32 | uint64 | uin
 		}
 	case string:
 		{
-			return strings.Compare(fmt.Sprintf("%v", a), t)
+			return strings.Compare(text(a), t)
 		}
 	}
-	return strings.Compare(fmt.Sprintf("%v", a), fmt.Sprintf("%v", v))
+	return strings.Compare(text(a), text(v))
 }
